@@ -1,7 +1,32 @@
 import Mutagen.Driver.Util
+import Mutagen.Model.CloseLadder
 namespace Mutagen.Driver.C35
+open Mutagen.Driver Mutagen.Model.CloseLadder
 
-/-- Model-side handler for one line of the C35 correspondence stream. -/
-def handle (_line : String) : String := "unimplemented"
+/-!
+Line: `<delay> <g1> <g2> <self> <onStdin> <onTerm> <killLatency> = <observed>`
+(milliseconds; `-` for a reaction the agent does not have). `<observed>` is the
+stage in which the real `Close` returned (`wait stdin term kill`). The model
+explores its runs under the promptness assumptions and prints the observed
+stage if one of its runs returns there, else the stage of its first run.
+-/
+
+def optNat (s : String) : Option (Option Nat) :=
+  if s == "-" then some none else s.toNat?.map some
+
+def showStage : Stage → String
+  | .wait => "wait" | .stdin => "stdin" | .term => "term" | .kill => "kill"
+
+def handle (line : String) : String :=
+  match fields line with
+  | [d, g1, g2, self, onStdin, onTerm, kl, "=", obs] =>
+    match d.toNat?, g1.toNat?, g2.toNat?, optNat self, optNat onStdin, optNat onTerm, kl.toNat? with
+    | some d, some g1, some g2, some self, some onStdin, some onTerm, some kl =>
+      let p : Params := { delay := d, g1 := g1, g2 := g2 }
+      let b : Behaviour := { self := self, onStdin := onStdin, onTerm := onTerm, killLatency := kl }
+      let stages := ((outcomes p b 64 (init p b)).map fun r => showStage r.1).eraseDups
+      if stages.contains obs then obs else stages.headD "no-return"
+    | _, _, _, _, _, _, _ => "bad-line"
+  | _ => "bad-line"
 
 end Mutagen.Driver.C35
